@@ -38,6 +38,10 @@ def relevant(pid, case, d):
     if pid == "C11":
         return op == "Get" and k in ("res", "out")
     gen = sum(1 for o in case["path"] if o.get("op") == "Reload")     # how many save/load generations precede this call
+    if pid == "C02":
+        return op == "LoadBytes" and k in ("post", "out")
+    if pid == "C12":
+        return (op == "LoadBytes" and k in ("post", "out")) or (op == "Reload" and k in ("bytes", "post", "out"))
     if pid == "C01":
         return op == "Reload" and gen == 0 and (k in ("post", "out") or k == "bytes")
     if pid == "C03":
@@ -307,10 +311,30 @@ def run_memsafe(pid, tier, t0):
         log("  sanitizer output (first reports):\n" + "\n".join("    " + l for l in stderr.splitlines()[:40]))
     return rc
 
+def run_format(pid, tier, t0):
+    ez = report_replay.ez = vlib.build("plain")
+    results = []
+    if pid in ("C02", "C04"):
+        results.append(("MC_Format/layout", vlib.replay_slice("MC_Format.tla", "MC_Format.cfg", {"Variant": '"layout"'}, ez, tag="fmtlayout", timeout=6000)))
+    if pid == "C12":
+        results.append(("MC_Format/patterns", vlib.replay_slice("MC_Format.tla", "MC_Format.cfg", {"Variant": '"patterns"'}, ez, tag="fmtpat", timeout=6000)))
+    if pid == "C04":
+        results.append(("MC_IO", vlib.replay_slice("MC_IO.tla", "MC_IO.cfg", io_consts(tier), ez, tag="io", timeout=6000)))
+    extra = {}
+    if pid == "C12":
+        extra = {"exhaustive_integer_spaces": "all 256 byte values and all 65536 16-bit integer values are stored in parameters of the generated files; "
+                 "the conversion lemmas Lemma_S16_LE16/U16/S8 are evaluated by TLC over all 2^8 / 2^16 values (ASSUME in MC_Format)",
+                 "float_classes": "every exponent 0..255 x both signs x mantissa {0, 1, all ones, 0x555555} in points, residuals, analog samples, float parameters, event times"}
+    return report_replay(pid, results, tier, t0, extra_cov=extra, assumptions=[
+        "the files are produced by the specification's encoder EncodeWith; TLC checks (ASSUME FormatOracle) that the independent pointer-following decoder "
+        "Decode returns the encoded content and that the reader model agrees, for every generated file",
+        "rates in generated files come from the exact-rate table; the two multi-word reserved header fields are zero"])
+
 CHECKS = {
+    "C02": run_format, "C12": run_format,
     "C15": run_faults,
     "C13": run_memsafe,
-    "C01": run_io, "C03": run_io, "C04": run_io, "C14": run_io,
+    "C01": run_io, "C03": run_io, "C04": run_format, "C14": run_io,
     "C11": run_lookup,
     "C09": run_params,
     "C06": run_frames,
